@@ -177,7 +177,6 @@ theorem finish_btw {pend : Bool} {m c} (h : Btw pend m c) (hmiss : c.missingPosi
   | true =>
     simp only [Btw, if_true] at h
     obtain ⟨c0, i, a, hp, rfl⟩ := h
-    have hp' : POpt { m with st := .end, flag := m.flag } c0 i a → True := fun _ => trivial
     obtain ⟨hc, hf, _, hinc⟩ := popt_facts hp
     have hset : a.setValue (.b true) (cast := false) = .ok a.seen := by
       have hl : ¬ a.spec.kind = .list := hp.nolist
@@ -223,7 +222,6 @@ theorem parse_chain_core (ic : Option Ctx) (reg : List Ctx) (ign : Bool) (calls 
     rw [hfin]
     cases ic <;> simp [M.start]
   | cons k r =>
-    have hok0 := hok
     obtain ⟨⟨hname, hfind, hitems⟩, hlast, hrest⟩ := hok
     rw [start_enter ic reg ign (fun p hp => (hname.2 p hp).2.2)]
     simp only []
